@@ -1,12 +1,15 @@
 #!/bin/bash
-# usage: mut_eval.sh <patch.diff> <tier> <check ids...>
-# Applies the patch to /repo, runs the listed checks, always reverts. Prints one line per check.
+# usage: [MUT_REPO=<scratch worktree>] mut_eval.sh <patch.diff> <tier> <check ids...>
+# Applies the patch to /repo (or to the scratch worktree named by MUT_REPO, leaving /repo alone),
+# runs the listed checks, always reverts. Prints one line per check.
 patch=$1; tier=$2; shift 2
-cd /repo || exit 2
-if ! git diff --quiet; then echo "/repo dirty, refusing"; exit 2; fi
-trap 'git -C /repo checkout -- . ; git -C /repo clean -fdq src' EXIT
+R=${MUT_REPO:-/repo}
+cd "$R" || exit 2
+if ! git diff --quiet; then echo "$R dirty, refusing"; exit 2; fi
+trap 'git -C "$R" checkout -- . ; git -C "$R" clean -fdq src' EXIT
 git apply "$patch" || { echo "patch does not apply"; exit 2; }
-cd /verif
+cd "$(dirname "$(readlink -f "$0")")"
+[ -n "$MUT_REPO" ] && export VERIF_REPO=$MUT_REPO
 for id in "$@"; do
   s=$(date +%s)
   out=$(./check $id --tier $tier 2>&1); rc=$?
